@@ -51,10 +51,11 @@ type c07scn struct {
 	dir   string // A: target parked at p until flusher passed f; B: flusher parked at f until target passed p
 	dotu  bool
 	rep   int
+	ttag  string // "" (the next free tag) or the tag the target carries: "ffff" (Tversion's tag, legal for any request), "fffe", "zero"
 }
 
 func (s c07scn) id() string {
-	return fmt.Sprintf("%s/%s/%s/%s/%s/%s/dotu=%v/%d", s.kind, s.mode, s.stage, s.p, s.f, s.dir, s.dotu, s.rep)
+	return fmt.Sprintf("%s/%s/%s/%s/%s/%s/dotu=%v/%d%s", s.kind, s.mode, s.stage, s.p, s.f, s.dir, s.dotu, s.rep, s.ttag)
 }
 
 func c07Cases(tier string, seed int64) []core.Case {
@@ -87,6 +88,16 @@ func c07Cases(tier string, seed int64) []core.Case {
 				}
 				for i := 0; i < n; i++ {
 					scns = append(scns, c07scn{kind: k, mode: mode, stage: st, dotu: dotu, rep: i})
+				}
+			}
+		}
+	}
+	// the tag of the target is any 16-bit value, also the one Tversion uses
+	for ki, k := range kinds {
+		for _, mode := range modes {
+			for _, tt := range []string{"ffff", "fffe", "zero"} {
+				for _, st := range []string{"gated", "multi", "sameseg"} {
+					scns = append(scns, c07scn{kind: k, mode: mode, stage: st, dotu: ki%2 == 0, ttag: tt})
 				}
 			}
 		}
@@ -288,6 +299,14 @@ func c07Run(seed int64, sc c07scn, res *core.Result) {
 		target.Oldtag = third.Tag
 	}
 	target.Tag = e.next()
+	switch sc.ttag {
+	case "ffff":
+		target.Tag = 0xFFFF
+	case "fffe":
+		target.Tag = 0xFFFE
+	case "zero":
+		target.Tag = 0
+	}
 	tt := int(target.Tag)
 	plan := script.NewPlan()
 	var gate chan struct{}
